@@ -2,17 +2,17 @@
 # usage: tools/seed_eval.sh C08 [extra property ids]   -> evaluates /tmp/seed/C08/SEED/patch{1,2}.diff
 id=$1; shift
 for n in 1 2; do
-  d=/tmp/seed/$id/SEED
+  d=/tmp/seed/$id/${SEED_DIR:-SEED}
   [ -f $d/patch$n.diff ] || continue
-  python3 /verif/tools/seedcheck.py $d/patch$n.diff $d/demo$n.py $id "$@" > /tmp/seed/$id/SEED/result$n.json 2>/tmp/seed/$id/SEED/result$n.err
+  python3 /verif/tools/seedcheck.py $d/patch$n.diff $d/demo$n.py $id "$@" > /tmp/seed/$id/${SEED_DIR:-SEED}/result$n.json 2>/tmp/seed/$id/${SEED_DIR:-SEED}/result$n.err
   python3 - <<PY
 import json
 try:
-    r=json.loads(open("/tmp/seed/$id/SEED/result$n.json").read().strip().splitlines()[-1])
+    r=json.loads(open("/tmp/seed/$id/${SEED_DIR:-SEED}/result$n.json").read().strip().splitlines()[-1])
     print("$id#$n applies=%s tests_ok=%s demo_ok=%s caught_by=%s" % (r.get("applies"), r.get("tests_ok"), r.get("demo_ok"), r.get("caught_by")))
     for p,v in r.get("checks",{}).items():
         print("   ", p, v.get("exit"), v.get("detail","")[:260])
 except Exception as e:
-    print("$id#$n ERROR", e, open("/tmp/seed/$id/SEED/result$n.err").read()[-300:])
+    print("$id#$n ERROR", e, open("/tmp/seed/$id/${SEED_DIR:-SEED}/result$n.err").read()[-300:])
 PY
 done
